@@ -157,7 +157,20 @@ fn subtype(c: &Sexp) -> Result<Sexp, String> {
     let a = c.args();
     if c.head() != Some("Subtype") || a.len() != 3 { return Err("expected (Subtype program goal solver)".into()); }
     let choice = match a[2].head() { Some("Slg") => SolverChoice::slg_default(), Some("Rec") => SolverChoice::recursive_default(), _ => return Err("solver".into()) };
-    let db = ChalkDatabase::with(a[0].as_str()?, choice);
+    // one database per (program text, solver) and process: parsing and lowering the program dominates otherwise
+    thread_local! {
+        static DBS: std::cell::RefCell<Vec<(String, bool, std::rc::Rc<ChalkDatabase>)>> = std::cell::RefCell::new(vec![]);
+    }
+    let text = a[0].as_str()?.to_string();
+    let is_slg = a[2].head() == Some("Slg");
+    let db: std::rc::Rc<ChalkDatabase> = DBS.with(|d| {
+        let mut d = d.borrow_mut();
+        if let Some(e) = d.iter().find(|e| e.0 == text && e.1 == is_slg) { return e.2.clone(); }
+        let db = std::rc::Rc::new(ChalkDatabase::with(&text, choice));
+        d.push((text.clone(), is_slg, db.clone()));
+        db
+    });
+    let db: &ChalkDatabase = &db;
     let program = db.program_ir().map_err(|e| format!("program: {}", e))?;
     let adts: Vec<Sexp> = program.adt_ids.iter().map(|(n, id)| Sexp::app("Pair", vec![Sexp::string(&n.to_string()), Sexp::num(id.0.index as u64)])).collect();
     let vars: Vec<Sexp> = program.adt_variances.iter().map(|(id, vs)| Sexp::app("Pair", vec![Sexp::num(id.0.index as u64), Sexp::List(vs.iter().map(|v| variance_sx(*v)).collect())])).collect();
@@ -188,7 +201,7 @@ fn subtype(c: &Sexp) -> Result<Sexp, String> {
     let e2c_sx: Vec<Sexp> = e2c.iter().map(|k| match k { Some(k) => some(Sexp::num(*k as u64)), None => none() }).collect();
     let answer = match guarded(|| tls::set_current_program(&program, || {
         let mut solver: Box<dyn Solver<ChalkIr>> = choice.into_solver();
-        solver.solve(&db, &u.quantified)
+        solver.solve(db, &u.quantified)
     })) {
         Err(p) => Sexp::app("Error", vec![Sexp::string(&format!("panic: {}", p))]),
         Ok(None) => Sexp::atom("NoSolution"),
